@@ -4,8 +4,9 @@
    inductives.  Run from this directory: coqc -Q ../theories Goag Extract.v *)
 Require Extraction.
 Require Import ExtrOcamlBasic.
-From Goag Require Import Model.OutDir.
+From Goag Require Import Base.Str Model.OutDir Model.GoLit.
 
 Extraction Language OCaml.
 Extraction "model.ml"
-  OutDir.run_history OutDir.observe OutDir.spec_dir OutDir.empty_dir OutDir.write.
+  OutDir.run_history OutDir.observe OutDir.spec_dir OutDir.empty_dir OutDir.write
+  GoLit.encode GoLit.go_eval GoLit.embeddable.
